@@ -657,6 +657,11 @@ func replay() {
 		if s != nil {
 			s.pad = rc.Pad
 		}
+	} else if rc.Kind == "qr" && rc.QRVal {
+		s, p = buildQRLatin1(rc.V, rc.Level, rc.Mask, qrValueText(rc.V, rc.Level), false, true)
+		if s != nil {
+			s.qrValues = true
+		}
 	} else if rc.Kind == "qr" && rc.Twin {
 		s, p = buildQRText(rc.V, rc.Level, rc.Mask, twinText(rc.V, rc.Level), true)
 	} else if rc.Kind == "qr" {
